@@ -33,13 +33,15 @@ pub struct Want {
     /// transcendental function whose CBMC model is not exact)
     pub free_int_top: bool,
     pub free_flt_top: bool,
-    /// all element values of the top FLOATVECTOR are left free (SINE)
+    /// all element values of the top FLOATVECTOR are left free (SINE, sort with NaN)
     pub free_fvec_top: bool,
+    /// bit i set: element i of the top INTVECTOR is left free (element-wise overflow)
+    pub free_ivec_mask: u32,
 }
 
 impl Want {
     pub fn new(b: &Snap, operands: u32, results: u32) -> Want {
-        Want { s: *b, fired: false, operands, results, free_int_top: false, free_flt_top: false, free_fvec_top: false }
+        Want { s: *b, fired: false, operands, results, free_int_top: false, free_flt_top: false, free_fvec_top: false, free_ivec_mask: 0 }
     }
 }
 
@@ -451,12 +453,16 @@ macro_rules! flt_minmax {
 flt_minmax!(FLOAT_MAX, true);
 flt_minmax!(FLOAT_MIN, false);
 
+/// FLOAT./ : operands consumed, one FLOAT pushed, nothing for a zero divisor. The quotient itself is
+/// left free: CBMC's float-division encoding does not finish within the budget (measured), so the
+/// value is outside the claim (operand order for division is checked on INTEGER./).
 pub fn FLOAT_Slash(b: &Snap) -> Want {
     let mut w = Want::new(b, M_FLT, M_FLT);
     if b.flt.len >= 2 && b.flt.top(0) != 0.0 {
-        let top = w.s.flt.pop();
-        let second = w.s.flt.pop();
-        w.s.flt.push(second / top);
+        w.s.flt.pop();
+        w.s.flt.pop();
+        w.s.flt.push(0.0);
+        w.free_flt_top = true;
         w.fired = true;
     }
     w
@@ -756,6 +762,763 @@ pub fn CODE_SIZE(b: &Snap) -> Want {
         w.s.int.push(1);
         if b.code.top(0).kind == 6 {
             w.free_int_top = true;
+        }
+        w.fired = true;
+    }
+    w
+}
+
+// ------------------------------------------------------------------------------------------------
+// Vectors (C09). README rule for element-wise operations: the top vector, shifted by the offset, is
+// combined into the second vector on the overlapping positions only:
+//     for i in 0..len(top): j = i + offset; if 0 <= j < len(second): second[j] = second[j] op top[i]
+// every other element of the second vector is unchanged; the result has the second vector's length.
+
+pub type V<T> = Seq<T, NL>;
+
+fn vclamp(idx: i32, len: usize) -> usize {
+    // i32::max(i32::min(index, len - 1), 0)
+    clamp(idx, len)
+}
+
+macro_rules! vec_get {
+    ($name:ident, $vf:ident, $sf:ident, $vm:expr, $sm:expr) => {
+        pub fn $name(b: &Snap) -> Want {
+            let mut w = Want::new(b, M_INT, $sm);
+            if b.int.len >= 1 && b.$vf.len >= 1 && b.$vf.top(0).len >= 1 {
+                let idx = w.s.int.pop();
+                let v = b.$vf.top(0);
+                let e = v.a[vclamp(idx, v.len)];
+                w.s.$sf.push(e);
+                w.fired = true;
+            }
+            w
+        }
+    };
+}
+vec_get!(BOOLVECTOR_GET, bvec, boo, M_BVEC, M_BOOL);
+vec_get!(INTVECTOR_GET, ivec, int, M_IVEC, M_INT);
+vec_get!(FLOATVECTOR_GET, fvec, flt, M_FVEC, M_FLT);
+
+pub fn BOOLVECTOR_SET(b: &Snap) -> Want {
+    let mut w = Want::new(b, M_INT | M_BOOL, M_BVEC);
+    if b.int.len >= 1 && b.boo.len >= 1 && b.bvec.len >= 1 && b.bvec.top(0).len >= 1 {
+        let idx = w.s.int.pop();
+        let e = w.s.boo.pop();
+        let k = w.s.bvec.len - 1;
+        let i = vclamp(idx, w.s.bvec.a[k].len);
+        w.s.bvec.a[k].a[i] = e;
+        w.fired = true;
+    }
+    w
+}
+/// INTVECTOR.SET: top INTEGER is the index, second INTEGER the new element.
+pub fn INTVECTOR_SET(b: &Snap) -> Want {
+    let mut w = Want::new(b, M_INT, M_IVEC);
+    if b.int.len >= 2 && b.ivec.len >= 1 && b.ivec.top(0).len >= 1 {
+        let idx = w.s.int.pop();
+        let e = w.s.int.pop();
+        let k = w.s.ivec.len - 1;
+        let i = vclamp(idx, w.s.ivec.a[k].len);
+        w.s.ivec.a[k].a[i] = e;
+        w.fired = true;
+    }
+    w
+}
+pub fn FLOATVECTOR_SET(b: &Snap) -> Want {
+    let mut w = Want::new(b, M_INT | M_FLT, M_FVEC);
+    if b.int.len >= 1 && b.flt.len >= 1 && b.fvec.len >= 1 && b.fvec.top(0).len >= 1 {
+        let idx = w.s.int.pop();
+        let e = w.s.flt.pop();
+        let k = w.s.fvec.len - 1;
+        let i = vclamp(idx, w.s.fvec.a[k].len);
+        w.s.fvec.a[k].a[i] = e;
+        w.fired = true;
+    }
+    w
+}
+
+/// element-wise binary operation with offset on the top two vectors of a vector stack
+macro_rules! vec_overlap {
+    ($name:ident, $vf:ident, $vm:expr, $t:ty, $f:expr) => {
+        pub fn $name(b: &Snap) -> Want {
+            let mut w = Want::new(b, M_INT | $vm, $vm);
+            if b.$vf.len >= 2 && b.int.len >= 1 {
+                let top = w.s.$vf.pop();
+                let mut second = w.s.$vf.pop();
+                let offset = w.s.int.pop() as i64;
+                let f: fn($t, $t) -> $t = $f;
+                let mut i = 0;
+                while i < NL {
+                    if i < top.len {
+                        let j = i as i64 + offset;
+                        if j >= 0 && (j as usize) < second.len {
+                            second.a[j as usize] = f(second.a[j as usize], top.a[i]);
+                        }
+                    }
+                    i += 1;
+                }
+                w.s.$vf.push(second);
+                w.fired = true;
+            }
+            w
+        }
+    };
+}
+vec_overlap!(BOOLVECTOR_AND, bvec, M_BVEC, bool, |a, b| a && b);
+vec_overlap!(BOOLVECTOR_OR, bvec, M_BVEC, bool, |a, b| a || b);
+vec_overlap!(FLOATVECTOR_Plus, fvec, M_FVEC, f32, |a, b| a + b);
+vec_overlap!(FLOATVECTOR_Minus, fvec, M_FVEC, f32, |a, b| a - b);
+vec_overlap!(FLOATVECTOR_Star, fvec, M_FVEC, f32, |a, b| a * b);
+
+/// INTVECTOR + / -: an element whose exact result is not representable is left free.
+macro_rules! ivec_overlap {
+    ($name:ident, $f:expr) => {
+        pub fn $name(b: &Snap) -> Want {
+            let mut w = Want::new(b, M_INT | M_IVEC, M_IVEC);
+            if b.ivec.len >= 2 && b.int.len >= 1 {
+                let top = w.s.ivec.pop();
+                let mut second = w.s.ivec.pop();
+                let offset = w.s.int.pop() as i64;
+                let f: fn(i32, i32) -> Option<i32> = $f;
+                let mut i = 0;
+                while i < NL {
+                    if i < top.len {
+                        let j = i as i64 + offset;
+                        if j >= 0 && (j as usize) < second.len {
+                            match f(second.a[j as usize], top.a[i]) {
+                                Some(r) => second.a[j as usize] = r,
+                                None => w.free_ivec_mask |= 1u32 << (j as u32),
+                            }
+                        }
+                    }
+                    i += 1;
+                }
+                w.s.ivec.push(second);
+                w.fired = true;
+            }
+            w
+        }
+    };
+}
+ivec_overlap!(INTVECTOR_Plus, |a, b| a.checked_add(b));
+ivec_overlap!(INTVECTOR_Minus, |a, b| a.checked_sub(b));
+
+/// FLOATVECTOR./ : a zero divisor on an overlapping position => no result (operands may be consumed).
+/// Quotient values are left free (float division does not finish under CBMC); length, operand
+/// consumption and the zero-divisor guard are asserted.
+pub fn FLOATVECTOR_Slash(b: &Snap) -> Want {
+    let mut w = Want::new(b, M_INT | M_FVEC, M_FVEC);
+    if b.fvec.len >= 2 && b.int.len >= 1 {
+        let top = w.s.fvec.pop();
+        let second = w.s.fvec.pop();
+        let offset = w.s.int.pop() as i64;
+        let mut zero = false;
+        let mut i = 0;
+        while i < NL {
+            if i < top.len {
+                let j = i as i64 + offset;
+                if j >= 0 && (j as usize) < second.len && top.a[i] == 0.0 {
+                    zero = true;
+                }
+            }
+            i += 1;
+        }
+        if zero {
+            w.s = *b;
+        } else {
+            w.s.fvec.push(second);
+            w.free_fvec_top = true;
+            w.fired = true;
+        }
+    }
+    w
+}
+
+/// BOOLVECTOR.NOT: the vector shifted by the offset overlapped with itself: position j = i + offset
+/// (0 <= i < len, 0 <= j < len) is negated (pinned by the repository's own test).
+pub fn BOOLVECTOR_NOT(b: &Snap) -> Want {
+    let mut w = Want::new(b, M_INT | M_BVEC, M_BVEC);
+    if b.bvec.len >= 1 && b.int.len >= 1 {
+        let mut v = w.s.bvec.pop();
+        let offset = w.s.int.pop() as i64;
+        let mut i = 0;
+        while i < NL {
+            if i < v.len {
+                let j = i as i64 + offset;
+                if j >= 0 && (j as usize) < v.len {
+                    v.a[j as usize] = !v.a[j as usize];
+                }
+            }
+            i += 1;
+        }
+        w.s.bvec.push(v);
+        w.fired = true;
+    }
+    w
+}
+
+pub fn BOOLVECTOR_COUNT(b: &Snap) -> Want {
+    let mut w = Want::new(b, 0, M_INT);
+    if b.bvec.len >= 1 {
+        let v = b.bvec.top(0);
+        let mut n = 0;
+        let mut i = 0;
+        while i < NL {
+            if i < v.len && v.a[i] {
+                n += 1;
+            }
+            i += 1;
+        }
+        w.s.int.push(n);
+        w.fired = true;
+    }
+    w
+}
+
+macro_rules! vec_equal {
+    ($name:ident, $vf:ident, $vm:expr) => {
+        pub fn $name(b: &Snap) -> Want {
+            let mut w = Want::new(b, $vm, M_BOOL);
+            if b.$vf.len >= 2 {
+                let top = w.s.$vf.pop();
+                let second = w.s.$vf.pop();
+                let mut e = top.len == second.len;
+                let mut i = 0;
+                while i < NL {
+                    if i < top.len && i < second.len && !(top.a[i] == second.a[i]) {
+                        e = false;
+                    }
+                    i += 1;
+                }
+                w.s.boo.push(e);
+                w.fired = true;
+            }
+            w
+        }
+    };
+}
+vec_equal!(BOOLVECTOR_EQUAL, bvec, M_BVEC);
+vec_equal!(INTVECTOR_EQUAL, ivec, M_IVEC);
+vec_equal!(FLOATVECTOR_EQUAL, fvec, M_FVEC);
+
+macro_rules! vec_length {
+    ($name:ident, $vf:ident) => {
+        pub fn $name(b: &Snap) -> Want {
+            let mut w = Want::new(b, 0, M_INT);
+            if b.$vf.len >= 1 {
+                w.s.int.push(b.$vf.top(0).len as i32);
+                w.fired = true;
+            }
+            w
+        }
+    };
+}
+vec_length!(BOOLVECTOR_LENGTH, bvec);
+vec_length!(INTVECTOR_LENGTH, ivec);
+vec_length!(FLOATVECTOR_LENGTH, fvec);
+
+/// ONES / ZEROS: size from the INTEGER stack; a vector of that length for size > 0, nothing otherwise.
+macro_rules! vec_fill {
+    ($name:ident, $vf:ident, $vm:expr, $val:expr, $zero:expr) => {
+        pub fn $name(b: &Snap) -> Want {
+            let mut w = Want::new(b, M_INT, $vm);
+            if b.int.len >= 1 {
+                let size = w.s.int.pop();
+                if size > 0 {
+                    let mut v = Seq::new($zero);
+                    let mut i = 0;
+                    while i < NL {
+                        if (i as i32) < size {
+                            v.a[i] = $val;
+                        }
+                        i += 1;
+                    }
+                    v.len = size as usize;
+                    w.s.$vf.push(v);
+                }
+                w.fired = true;
+            }
+            w
+        }
+    };
+}
+vec_fill!(BOOLVECTOR_ONES, bvec, M_BVEC, true, false);
+vec_fill!(BOOLVECTOR_ZEROS, bvec, M_BVEC, false, false);
+vec_fill!(INTVECTOR_ONES, ivec, M_IVEC, 1, 0);
+vec_fill!(INTVECTOR_ZEROS, ivec, M_IVEC, 0, 0);
+vec_fill!(FLOATVECTOR_ONES, fvec, M_FVEC, 1.0, 0.0);
+vec_fill!(FLOATVECTOR_ZEROS, fvec, M_FVEC, 0.0, 0.0);
+
+/// ROTATE: elements move one position to the left, the first is dropped, the last comes from the
+/// scalar stack. Needs a scalar and a non-empty vector.
+macro_rules! vec_rotate {
+    ($name:ident, $vf:ident, $vm:expr, $sf:ident, $sm:expr) => {
+        pub fn $name(b: &Snap) -> Want {
+            let mut w = Want::new(b, $sm, $vm);
+            if b.$sf.len >= 1 && b.$vf.len >= 1 && b.$vf.top(0).len >= 1 {
+                let e = w.s.$sf.pop();
+                let k = w.s.$vf.len - 1;
+                let n = w.s.$vf.a[k].len;
+                let mut i = 0;
+                while i + 1 < n {
+                    w.s.$vf.a[k].a[i] = w.s.$vf.a[k].a[i + 1];
+                    i += 1;
+                }
+                w.s.$vf.a[k].a[n - 1] = e;
+                w.fired = true;
+            }
+            w
+        }
+    };
+}
+vec_rotate!(BOOLVECTOR_ROTATE, bvec, M_BVEC, boo, M_BOOL);
+vec_rotate!(INTVECTOR_ROTATE, ivec, M_IVEC, int, M_INT);
+vec_rotate!(FLOATVECTOR_ROTATE, fvec, M_FVEC, flt, M_FLT);
+
+fn sort_i32(v: &mut V<i32>, desc: bool) {
+    let mut i = 1;
+    while i < NL {
+        let mut j = i;
+        while j > 0 {
+            if j < v.len && ((!desc && v.a[j - 1] > v.a[j]) || (desc && v.a[j - 1] < v.a[j])) {
+                let t = v.a[j];
+                v.a[j] = v.a[j - 1];
+                v.a[j - 1] = t;
+            }
+            j -= 1;
+        }
+        i += 1;
+    }
+}
+fn sort_bool(v: &mut V<bool>, desc: bool) {
+    let mut n = 0;
+    let mut i = 0;
+    while i < NL {
+        if i < v.len && v.a[i] {
+            n += 1;
+        }
+        i += 1;
+    }
+    i = 0;
+    while i < NL {
+        if i < v.len {
+            v.a[i] = if desc { i < n } else { i >= v.len - n };
+        }
+        i += 1;
+    }
+}
+fn sort_f32(v: &mut V<f32>, desc: bool) {
+    let mut i = 1;
+    while i < NL {
+        let mut j = i;
+        while j > 0 {
+            if j < v.len && ((!desc && v.a[j - 1] > v.a[j]) || (desc && v.a[j - 1] < v.a[j])) {
+                let t = v.a[j];
+                v.a[j] = v.a[j - 1];
+                v.a[j - 1] = t;
+            }
+            j -= 1;
+        }
+        i += 1;
+    }
+}
+fn has_nan(v: &V<f32>) -> bool {
+    let mut r = false;
+    let mut i = 0;
+    while i < NL {
+        if i < v.len && v.a[i].is_nan() {
+            r = true;
+        }
+        i += 1;
+    }
+    r
+}
+macro_rules! vec_sort {
+    ($name:ident, $vf:ident, $vm:expr, $sort:ident, $desc:expr) => {
+        pub fn $name(b: &Snap) -> Want {
+            let mut w = Want::new(b, 0, $vm);
+            if b.$vf.len >= 1 {
+                let k = w.s.$vf.len - 1;
+                $sort(&mut w.s.$vf.a[k], $desc);
+                w.fired = true;
+            }
+            w
+        }
+    };
+}
+vec_sort!(BOOLVECTOR_SORTStarASC, bvec, M_BVEC, sort_bool, false);
+vec_sort!(BOOLVECTOR_SORTStarDESC, bvec, M_BVEC, sort_bool, true);
+vec_sort!(INTVECTOR_SORTStarASC, ivec, M_IVEC, sort_i32, false);
+vec_sort!(INTVECTOR_SORTStarDESC, ivec, M_IVEC, sort_i32, true);
+/// float sort: with a NaN element the order is unspecified (values free, length kept);
+/// equal-comparing elements (+0.0 / -0.0) may appear in either order (feq treats them as equal).
+pub fn FLOATVECTOR_SORTStarASC(b: &Snap) -> Want {
+    let mut w = Want::new(b, 0, M_FVEC);
+    if b.fvec.len >= 1 {
+        let k = w.s.fvec.len - 1;
+        if has_nan(&w.s.fvec.a[k]) {
+            w.free_fvec_top = true;
+        } else {
+            sort_f32(&mut w.s.fvec.a[k], false);
+        }
+        w.fired = true;
+    }
+    w
+}
+pub fn FLOATVECTOR_SORTStarDESC(b: &Snap) -> Want {
+    let mut w = Want::new(b, 0, M_FVEC);
+    if b.fvec.len >= 1 {
+        let k = w.s.fvec.len - 1;
+        if has_nan(&w.s.fvec.a[k]) {
+            w.free_fvec_top = true;
+        } else {
+            sort_f32(&mut w.s.fvec.a[k], true);
+        }
+        w.fired = true;
+    }
+    w
+}
+
+pub fn INTVECTOR_APPEND(b: &Snap) -> Want {
+    let mut w = Want::new(b, M_INT, M_IVEC);
+    if b.ivec.len >= 1 && b.int.len >= 1 {
+        let e = w.s.int.pop();
+        let k = w.s.ivec.len - 1;
+        w.s.ivec.a[k].push(e);
+        w.fired = true;
+    }
+    w
+}
+pub fn FLOATVECTOR_APPEND(b: &Snap) -> Want {
+    let mut w = Want::new(b, M_FLT, M_FVEC);
+    if b.fvec.len >= 1 && b.flt.len >= 1 {
+        let e = w.s.flt.pop();
+        let k = w.s.fvec.len - 1;
+        w.s.fvec.a[k].push(e);
+        w.fired = true;
+    }
+    w
+}
+/// INTVECTOR.BOOLINDEX: pops the BOOLVECTOR, pushes the indices of its true values.
+pub fn INTVECTOR_BOOLINDEX(b: &Snap) -> Want {
+    let mut w = Want::new(b, M_BVEC, M_IVEC);
+    if b.bvec.len >= 1 {
+        let v = w.s.bvec.pop();
+        let mut r: V<i32> = Seq::new(0);
+        let mut i = 0;
+        while i < NL {
+            if i < v.len && v.a[i] {
+                r.push(i as i32);
+            }
+            i += 1;
+        }
+        w.s.ivec.push(r);
+        w.fired = true;
+    }
+    w
+}
+pub fn INTVECTOR_CONTAINS(b: &Snap) -> Want {
+    let mut w = Want::new(b, M_INT | M_IVEC, M_BOOL);
+    if b.int.len >= 1 && b.ivec.len >= 1 {
+        let e = w.s.int.pop();
+        let v = w.s.ivec.pop();
+        let mut c = false;
+        let mut i = 0;
+        while i < NL {
+            if i < v.len && v.a[i] == e {
+                c = true;
+            }
+            i += 1;
+        }
+        w.s.boo.push(c);
+        w.fired = true;
+    }
+    w
+}
+pub fn INTVECTOR_EMPTY(b: &Snap) -> Want {
+    let mut w = Want::new(b, 0, M_IVEC);
+    w.s.ivec.push(Seq::new(0));
+    w.fired = true;
+    w
+}
+pub fn FLOATVECTOR_EMPTY(b: &Snap) -> Want {
+    let mut w = Want::new(b, 0, M_FVEC);
+    w.s.fvec.push(Seq::new(0.0));
+    w.fired = true;
+    w
+}
+/// INTVECTOR.FROMINT: top INTEGER n (clamped to 0..remaining depth); the next n integers become the
+/// vector, the former top of them last.
+pub fn INTVECTOR_FROMINT(b: &Snap) -> Want {
+    let mut w = Want::new(b, M_INT, M_IVEC);
+    if b.int.len >= 1 {
+        let n = w.s.int.pop();
+        let size = w.s.int.len;
+        let k = if n < 0 { 0 } else if (n as usize) > size { size } else { n as usize };
+        let mut r: V<i32> = Seq::new(0);
+        let base = size - k;
+        let mut i = 0;
+        while i < NL {
+            if i < k {
+                r.push(w.s.int.a[base + i]);
+            }
+            i += 1;
+        }
+        w.s.int.len = base;
+        w.s.ivec.push(r);
+        w.fired = true;
+    }
+    w
+}
+/// MEAN: exact sum / length; empty vector or a sum outside i32: value free.
+pub fn INTVECTOR_MEAN(b: &Snap) -> Want {
+    let mut w = Want::new(b, 0, M_FLT);
+    if b.ivec.len >= 1 {
+        let v = b.ivec.top(0);
+        let mut sum: i64 = 0;
+        let mut i = 0;
+        while i < NL {
+            if i < v.len {
+                sum += v.a[i] as i64;
+            }
+            i += 1;
+        }
+        if v.len == 0 || sum > i32::MAX as i64 || sum < i32::MIN as i64 {
+            w.s.flt.push(0.0);
+            w.free_flt_top = true;
+        } else {
+            w.s.flt.push((sum as i32) as f32 / v.len as f32);
+        }
+        w.fired = true;
+    }
+    w
+}
+fn fsum(v: &V<f32>) -> f32 {
+    let mut sum: f32 = 0.0;
+    let mut i = 0;
+    while i < NL {
+        if i < v.len {
+            sum += v.a[i];
+        }
+        i += 1;
+    }
+    sum
+}
+pub fn FLOATVECTOR_MEAN(b: &Snap) -> Want {
+    let mut w = Want::new(b, 0, M_FLT);
+    if b.fvec.len >= 1 {
+        let v = b.fvec.top(0);
+        if v.len == 0 {
+            w.s.flt.push(0.0);
+            w.free_flt_top = true;
+        } else {
+            w.s.flt.push(fsum(&v) / v.len as f32);
+        }
+        w.fired = true;
+    }
+    w
+}
+pub fn INTVECTOR_SUM(b: &Snap) -> Want {
+    let mut w = Want::new(b, 0, M_INT);
+    if b.ivec.len >= 1 {
+        let v = b.ivec.top(0);
+        let mut sum: i64 = 0;
+        let mut i = 0;
+        while i < NL {
+            if i < v.len {
+                sum += v.a[i] as i64;
+            }
+            i += 1;
+        }
+        if sum > i32::MAX as i64 || sum < i32::MIN as i64 {
+            w.s.int.push(0);
+            w.free_int_top = true;
+        } else {
+            w.s.int.push(sum as i32);
+        }
+        w.fired = true;
+    }
+    w
+}
+pub fn FLOATVECTOR_SUM(b: &Snap) -> Want {
+    let mut w = Want::new(b, 0, M_FLT);
+    if b.fvec.len >= 1 {
+        let v = b.fvec.top(0);
+        w.s.flt.push(fsum(&v));
+        w.fired = true;
+    }
+    w
+}
+pub fn INTVECTOR_REMOVE(b: &Snap) -> Want {
+    let mut w = Want::new(b, M_INT, M_IVEC);
+    if b.ivec.len >= 1 && b.int.len >= 1 {
+        let e = w.s.int.pop();
+        let k = w.s.ivec.len - 1;
+        let old = w.s.ivec.a[k];
+        let mut r: V<i32> = Seq::new(0);
+        let mut i = 0;
+        while i < NL {
+            if i < old.len && old.a[i] != e {
+                r.push(old.a[i]);
+            }
+            i += 1;
+        }
+        w.s.ivec.a[k] = r;
+        w.fired = true;
+    }
+    w
+}
+/// INTVECTOR.SET*INSERT: creates an empty vector when the INTVECTOR stack is empty (documented), then
+/// appends the top INTEGER unless already contained.
+pub fn INTVECTOR_SETStarINSERT(b: &Snap) -> Want {
+    let mut w = Want::new(b, M_INT, M_IVEC);
+    if w.s.ivec.len == 0 {
+        w.s.ivec.push(Seq::new(0));
+    }
+    if b.int.len >= 1 {
+        let e = w.s.int.pop();
+        let k = w.s.ivec.len - 1;
+        let v = w.s.ivec.a[k];
+        let mut c = false;
+        let mut i = 0;
+        while i < NL {
+            if i < v.len && v.a[i] == e {
+                c = true;
+            }
+            i += 1;
+        }
+        if !c {
+            w.s.ivec.a[k].push(e);
+        }
+    }
+    w.fired = true;
+    w
+}
+pub fn FLOATVECTOR_StarSCALAR(b: &Snap) -> Want {
+    let mut w = Want::new(b, M_FLT, M_FVEC);
+    if b.flt.len >= 1 && b.fvec.len >= 1 {
+        let f = w.s.flt.pop();
+        let k = w.s.fvec.len - 1;
+        let mut i = 0;
+        while i < NL {
+            if i < w.s.fvec.a[k].len {
+                w.s.fvec.a[k].a[i] = w.s.fvec.a[k].a[i] * f;
+            }
+            i += 1;
+        }
+        w.fired = true;
+    }
+    w
+}
+/// FLOATVECTOR.SINE: three FLOATs and the length; element values (sin) are outside the claim.
+pub fn FLOATVECTOR_SINE(b: &Snap) -> Want {
+    let mut w = Want::new(b, M_FLT | M_INT, M_FVEC);
+    if b.flt.len >= 3 && b.int.len >= 1 {
+        w.s.flt.pop();
+        w.s.flt.pop();
+        w.s.flt.pop();
+        let size = w.s.int.pop();
+        let mut v: V<f32> = Seq::new(0.0);
+        v.len = if size < 0 { 0 } else { size as usize };
+        w.s.fvec.push(v);
+        w.free_fvec_top = true;
+        w.fired = true;
+    }
+    w
+}
+
+// ------------------------------------------------------------------------------------------------
+// INPUT / OUTPUT queues (C17): messages are consumed strictly first-in first-out, written in program order
+
+/// INPUT.READ: pushes a copy of the oldest message (body -> BOOLVECTOR, header -> INTVECTOR); the
+/// message stays in the queue.
+pub fn INPUT_READ(b: &Snap) -> Want {
+    let mut w = Want::new(b, 0, M_BVEC | M_IVEC);
+    if b.inq.len >= 1 {
+        w.s.bvec.push(b.inq.a[0].b);
+        w.s.ivec.push(b.inq.a[0].h);
+        w.fired = true;
+    }
+    w
+}
+/// INPUT.GET: pushes bit n (clamped) of the oldest message's body; n from the INTEGER stack.
+pub fn INPUT_GET(b: &Snap) -> Want {
+    let mut w = Want::new(b, M_INT, M_BOOL);
+    if b.int.len >= 1 && b.inq.len >= 1 && b.inq.a[0].b.len >= 1 {
+        let idx = w.s.int.pop();
+        let body = b.inq.a[0].b;
+        w.s.boo.push(body.a[clamp(idx, body.len)]);
+        w.fired = true;
+    }
+    w
+}
+/// INPUT.NEXT: removes the oldest message.
+pub fn INPUT_NEXT(b: &Snap) -> Want {
+    let mut w = Want::new(b, M_IN, M_IN);
+    if b.inq.len >= 1 {
+        w.s.inq.remove_idx(0);
+        w.s.input_len -= 1;
+    }
+    w.fired = true;
+    w
+}
+pub fn OUTPUT_FLUSH(b: &Snap) -> Want {
+    let mut w = Want::new(b, M_OUT, M_OUT);
+    w.s.outq.len = 0;
+    w.s.output_len = 0;
+    w.fired = true;
+    w
+}
+/// OUTPUT.WRITE: header from INTVECTOR, body from BOOLVECTOR, enqueued as the newest message.
+/// On a full queue the plain push is ignored (buffer contract); the operands are consumed.
+pub fn OUTPUT_WRITE(b: &Snap) -> Want {
+    let mut w = Want::new(b, M_BVEC | M_IVEC, M_OUT);
+    if b.bvec.len >= 1 && b.ivec.len >= 1 {
+        let body = w.s.bvec.pop();
+        let header = w.s.ivec.pop();
+        if b.outq.len < 2 {
+            // harness output queue capacity is 2
+            w.s.outq.push(MsgSnap { h: header, b: body });
+            w.s.output_len += 1;
+        }
+        w.fired = true;
+    }
+    w
+}
+
+// ------------------------------------------------------------------------------------------------
+// LIST.NEIGHBOR*IDS (C20): operands clamped, then the brute-force neighbourhood of topo_ref.rs
+
+/// INTEGER stack: top = total size, second = centre index, third = number of dimensions;
+/// FLOAT stack: radius. size = max(size,0); index clamped into 0..size-1; dimensions clamped into
+/// 0..size; radius = max(radius, 0) (NaN counts as 0).
+pub fn LIST_NEIGHBORStarIDS(b: &Snap) -> Want {
+    use crate::topo_ref::ref_member;
+    let mut w = Want::new(b, M_INT | M_FLT, M_IVEC);
+    if b.int.len >= 3 && b.flt.len >= 1 {
+        let size_raw = w.s.int.pop();
+        let index_raw = w.s.int.pop();
+        let dims_raw = w.s.int.pop();
+        let f = w.s.flt.pop();
+        let size = if size_raw < 0 { 0 } else { size_raw };
+        let index = clamp(index_raw, size as usize);
+        let dims = {
+            let m = if dims_raw < size { dims_raw } else { size };
+            if m < 0 { 0 } else { m as usize }
+        };
+        let radius = if f > 0.0 { f } else { 0.0 };
+        if size >= 1 && dims >= 1 {
+            let n = size as usize;
+            let mut r: Seq<i32, NL> = Seq::new(0);
+            let mut j = 0;
+            while j < NL {
+                if j < n && ref_member(n, dims, index, j, radius) {
+                    r.push(j as i32);
+                }
+                j += 1;
+            }
+            w.s.ivec.push(r);
         }
         w.fired = true;
     }
